@@ -38,6 +38,11 @@ POOL = [
     ["raw", ["not t*"], ["not", ["or", T("t1"), ["or", T("t2"), T("t3")]]]],
     ["raw", ["t[12]"], ["or", T("t1"), T("t2")]],
     ["raw", ["w?p or t3"], ["or", T("wip"), T("t3")]],
+    # several new-style --tags options are AND-ed as wholes, whatever their own top-level operator and parentheses
+    ["raw", ["(t1 and not t2) or (t3)", "wip"], ["and", ["or", ["and", T("t1"), N("t2")], T("t3")], T("wip")]],
+    ["raw", ["(t1) or (t2)", "(t3)"], ["and", ["or", T("t1"), T("t2")], T("t3")]],
+    ["raw", ["t1 or t2", "not t3"], ["and", ["or", T("t1"), T("t2")], N("t3")]],
+    ["raw", ["(not t1) or (t2 and t3)", "(t1) or (t3)"], ["and", ["or", N("t1"), ["and", T("t2"), T("t3")]], ["or", T("t1"), T("t3")]]],
 ]
 
 
